@@ -238,7 +238,9 @@ func runC03(r *rep.Report, thorough bool) error {
 			ln := lns[i]
 			if ht, _ := frag["hasType"].([]any)[i].(bool); inFrag && ht {
 				r.Hist("end-to-end-theorem:document-covered")
-				if !ok.(bool) {
+				// (a program showing a recorded shape is reported through that finding below: there the
+				// real document is not the model's encoding of the value)
+				if !ok.(bool) && c03Shape(a, ln) == "" {
 					r.Disagree(rep.Disagreement{Tie: "c03.end-to-end-theorem-vs-real-document", Input: map[string]any{"case": id, "type": ln.Type, "doc": ln.Doc, "sources": a.Case.Sources()},
 						Model: "theorem C03_end_to_end: the document of a well-typed value of a program in the fragment inhabits its type", Impl: "the real document does not"})
 				}
